@@ -25,7 +25,8 @@ M = [
  ("C08-graph6-length-check-off-by-one", "C08", "graph/encoding.go", "if i+int(((n*(n-1))/2)+5)/6 > len(s) {", "if i+int(((n*(n-1))/2)+5)/6 > len(s)+1 {"),
  ("C08-sparse6-vertex-n-accepted", "C08", "graph/encoding.go", "} else if v < int(n) {", "} else if v <= int(n) {"),
  ("C02-reset-forgets-singleton-prefix", "C02", "graph/canonical.go", "\top.singletonPrefixLength = 0\n}", "}"),
- ("C02-reset-forgets-age", "C02", "graph/canonical.go", "\top.age = 0\n\top.singletonPrefixLength = 0\n}", "\top.singletonPrefixLength = 0\n}"),
+ # (C02 'Reset forgets op.age = 0' was in an earlier version of this list: it is an EQUIVALENT mutant - ages are only compared for equality with the current age, a constant offset changes nothing - and was correctly not reported.)
+ ("C02-reset-keeps-stale-value", "C02", "graph/canonical.go", "\top.value = op.value[:0]\n\top.age = 0", "\top.age = 0"),
  ("C03-maxsize-too-small", "C03", "graph/search/search_all.go", "maxSize := minDegree + 1", "maxSize := minDegree + 1\n\tif n == 6 && minDegree == 2 {\n\t\tmaxSize = minDegree\n\t}"),
  ("C03-split-at-two-levels", "C03", "graph/search/search_all.go", "if i%iter.m != iter.a && level == iter.splitLevel {", "if i%iter.m != iter.a && (level == iter.splitLevel || (iter.m == 3 && level == iter.splitLevel+1)) {"),
  ("C04-load-drops-edge-count", "C04", "graph/search/search_all.go", "\titer.sg.G.NumberOfEdges = s.G.NumberOfEdges\n", ""),
